@@ -331,6 +331,22 @@ Proof.
   exists (groups 7 vals). split; [reflexivity|]. unfold groups. apply groups_fuel_spec; lia.
 Qed.
 
+(* with include files: exactly the free variables of the file itself, in order, whatever the positions of the included ones *)
+Theorem fvars_written_shape fv :
+  exists gs, fvars_written fv = map (fun g => lit "FVAR   " ++ join (lit "   ") g) gs
+             /\ concat gs = map fst (filter (fun x => negb (snd x)) fv)
+             /\ Forall (fun g => (1 <= length g <= 7)%nat) gs.
+Proof. unfold fvars_written. apply fvar_lines_shape. Qed.
+
+Theorem fvars_written_ignores_included fv1 fv2 :
+  map fst (filter (fun x => negb (snd x)) fv1) = map fst (filter (fun x => negb (snd x)) fv2) -> fvars_written fv1 = fvars_written fv2.
+Proof. unfold fvars_written. intros E. rewrite E. reflexivity. Qed.
+
+Example fvars_written_example :
+  fvars_written [(lit "0.5", false); (lit "0.61", false); (lit "0.31", true); (lit "0.32", true); (lit "0.71", false)]
+  = [lit "FVAR   0.5   0.61   0.71"].
+Proof. vm_compute. reflexivity. Qed.
+
 Definition sfac_params (e : sfac_entry) : list str := match e with SPlain x => [x] | SExp v => v end.
 Definition sfac_line (g : list str) : str := lit "SFAC " ++ join (lit "  ") g.
 
